@@ -13,4 +13,5 @@ CONSTANTS
   Timeouts = {300, 1800}
   Replicas = {1, 2}
 PROPERTY EventuallySettled
+PROPERTY EventuallyGone
 CHECK_DEADLOCK FALSE
